@@ -37,6 +37,8 @@ func propC19(w *World, r *Report) {
 	checkExhaustive(w, r, p.Syntax, info)
 	checkGoroutines(w, r, fns)
 	checkItemLines(w, r, p.Syntax, info)
+	checkErrLine(w, r)
+	checkLeakWindow(w, r)
 	RunUnsignedCountdown(w, r, fns)
 	RunDupAssign(w, r, fns)
 	checkStableSort(w, r, fns)
@@ -771,4 +773,235 @@ func elemFieldsAllCompared(info *types.Info, fl *ast.FuncLit) bool {
 		return true
 	})
 	return !proj
+}
+
+// checkErrLine: "an error that carries a line number".  Two structural
+// conditions in package builder: (errkind) Parse returns no error other than
+// the *parseError it recovers — in particular nothing is returned before the
+// input has been looked at; (errline) the item whose line goes into a
+// parseError is checked for the zero line (what a receive from the closed
+// token channel yields after the lexer has stopped) and given the line of
+// the last item received instead.
+func checkErrLine(w *World, r *Report) {
+	r.Rule("errkind: every non-nil error returned by builder.Parse is the *parseError recovered from the parser (no early return of some other error, which would carry no line) || errline: in (*parser).fatal the item stored in the parseError has its line replaced when it is zero (closed token channel), by a parser field that readItem updates from the items it receives")
+	parse := w.Func("opentype/gtab/builder.Parse")
+	if parse == nil {
+		r.Fatal("builder.Parse does not resolve")
+		return
+	}
+	n := 0
+	for _, b := range parse.Blocks {
+		if len(b.Instrs) == 0 {
+			continue
+		}
+		ret, ok := b.Instrs[len(b.Instrs)-1].(*ssa.Return)
+		if !ok || len(ret.Results) != 2 {
+			continue
+		}
+		n++
+		key := r.MkKey("errkind", "builder.Parse", "return")
+		ev := ret.Results[1]
+		okErr := false
+		var why string
+		switch x := ev.(type) {
+		case *ssa.Const:
+			okErr = x.Value == nil
+		case *ssa.UnOp:
+			// load of the named result err: every store to it is nil or a converted *parseError
+			okErr = true
+			if al, ok := x.X.(*ssa.Alloc); ok && al.Referrers() != nil {
+				for _, ref := range *al.Referrers() {
+					st, ok := ref.(*ssa.Store)
+					if !ok {
+						continue
+					}
+					if c, ok := st.Val.(*ssa.Const); ok && c.Value == nil {
+						continue
+					}
+					if mi, ok := st.Val.(*ssa.MakeInterface); ok && strings.HasSuffix(mi.X.Type().String(), "builder.parseError") {
+						continue
+					}
+					okErr = false
+					why = "the result err is assigned " + st.Val.String() + " at " + w.Pos(st.Pos())
+				}
+			}
+			// stores may also happen in the deferred closure (free variable)
+		}
+		if okErr {
+			r.OK("errkind", key, w.Pos(ret.Pos()), "nil or the recovered *parseError")
+		} else {
+			if why == "" {
+				why = "the error value is " + ev.String()
+			}
+			r.Fail("errkind", key, w.Pos(ret.Pos()), "Parse can return an error that is not a *parseError ("+why+"): such an error carries no line number", nil)
+		}
+	}
+	// the deferred closure: stores to the captured err
+	for _, af := range parse.AnonFuncs {
+		for _, b := range af.Blocks {
+			for _, in := range b.Instrs {
+				st, ok := in.(*ssa.Store)
+				if !ok {
+					continue
+				}
+				fv, ok := st.Addr.(*ssa.FreeVar)
+				if !ok || fv.Name() != "err" {
+					continue
+				}
+				n++
+				key := r.MkKey("errkind", "builder.Parse", "recovered error")
+				if mi, ok := st.Val.(*ssa.MakeInterface); ok && strings.HasSuffix(mi.X.Type().String(), "builder.parseError") {
+					r.OK("errkind", key, w.Pos(st.Pos()), "*parseError")
+				} else {
+					r.Fail("errkind", key, w.Pos(st.Pos()), "the recovery handler stores an error that is not a *parseError", nil)
+				}
+			}
+		}
+	}
+	if n == 0 {
+		r.Fatal("errkind: no return found in builder.Parse")
+	}
+	// errline
+	fatal := w.Func("(*opentype/gtab/builder.parser).fatal")
+	key := r.MkKey("errline", "parser.fatal", "line of the reported item")
+	if fatal == nil {
+		r.Fail("errline", key, "-", "(*parser).fatal does not resolve", nil)
+		return
+	}
+	guarded := false
+	var field string
+	for _, b := range fatal.Blocks {
+		for _, in := range b.Instrs {
+			st, ok := in.(*ssa.Store)
+			if !ok {
+				continue
+			}
+			fa, ok := st.Addr.(*ssa.FieldAddr)
+			if !ok || fieldName(fa) != "line" {
+				continue
+			}
+			// stored value: load of a parser field
+			ld, ok := st.Val.(*ssa.UnOp)
+			if !ok {
+				continue
+			}
+			pf, ok := ld.X.(*ssa.FieldAddr)
+			if !ok {
+				continue
+			}
+			// guarded by a comparison of a line with 0
+			for _, g := range guardsOf(b) {
+				if cmp, ok := g.cond.(*ssa.BinOp); ok && cmp.Op == token.EQL && g.then {
+					if c, ok := bconstInt(cmp.Y); ok && c == 0 {
+						guarded = true
+						field = fieldName(pf)
+					}
+				}
+			}
+		}
+	}
+	updated := false
+	if ri := w.Func("(*opentype/gtab/builder.parser).readItem"); ri != nil && field != "" {
+		for _, b := range ri.Blocks {
+			for _, in := range b.Instrs {
+				if st, ok := in.(*ssa.Store); ok {
+					if fa, ok := st.Addr.(*ssa.FieldAddr); ok && fieldName(fa) == field {
+						updated = true
+					}
+				}
+			}
+		}
+	}
+	switch {
+	case guarded && updated:
+		r.OK("errline", key, w.Pos(fatal.Pos()), "a zero line is replaced by parser."+field+", which readItem keeps up to date")
+	case guarded:
+		r.Fail("errline", key, w.Pos(fatal.Pos()), "fatal falls back to parser."+field+" for a zero line, but readItem never updates that field", nil)
+	default:
+		r.Fail("errline", key, w.Pos(fatal.Pos()), "fatal takes the line from the next item without a fallback: after the lexer has stopped (lexical error, end of input) the token channel is closed, the item is the zero value and the error is reported at line 0", nil)
+	}
+	r.Floor("errkind", 2)
+	r.Floor("errline", 1)
+}
+
+// checkLeakWindow: once Parse has started the lexer goroutine, the only ways
+// out are the normal return after p.parse() has consumed the token stream and
+// a panic, which the deferred handler turns into an error after draining the
+// channel.  A plain return in between leaves the lexer blocked on its send.
+func checkLeakWindow(w *World, r *Report) {
+	r.Rule("leakwindow: in builder.Parse every return that can be reached after the call of lex (which starts the lexer goroutine) is dominated by the call of (*parser).parse, and the deferred drain-and-recover handler is installed before parse is called")
+	fn := w.Func("opentype/gtab/builder.Parse")
+	if fn == nil {
+		r.Fatal("builder.Parse does not resolve")
+		return
+	}
+	var lexCall, parseCall *ssa.Call
+	var deferIns *ssa.Defer
+	for _, b := range fn.Blocks {
+		for _, in := range b.Instrs {
+			switch x := in.(type) {
+			case *ssa.Call:
+				if c := x.Call.StaticCallee(); c != nil {
+					switch fnName(c) {
+					case "opentype/gtab/builder.lex":
+						lexCall = x
+					case "(*opentype/gtab/builder.parser).parse":
+						parseCall = x
+					}
+				}
+			case *ssa.Defer:
+				deferIns = x
+			}
+		}
+	}
+	key := r.MkKey("leakwindow", "builder.Parse", "returns after the lexer is started")
+	if lexCall == nil || parseCall == nil || deferIns == nil {
+		r.Fail("leakwindow", key, w.Pos(fn.Pos()), "lex call, parse call or deferred handler not found in Parse", nil)
+		return
+	}
+	before := func(a, b ssa.Instruction) bool { // a is executed before b on every path to b
+		if a.Block() == b.Block() {
+			for _, in := range a.Block().Instrs {
+				if in == a {
+					return true
+				}
+				if in == b {
+					return false
+				}
+			}
+		}
+		return a.Block().Dominates(b.Block())
+	}
+	bad := ""
+	if !before(deferIns, parseCall) {
+		bad = "the drain-and-recover handler is not installed before p.parse() runs"
+	}
+	// returns reachable from the lex call
+	seen := map[*ssa.BasicBlock]bool{}
+	stack := []*ssa.BasicBlock{lexCall.Block()}
+	for len(stack) > 0 {
+		b := stack[len(stack)-1]
+		stack = stack[:len(stack)-1]
+		if seen[b] {
+			continue
+		}
+		seen[b] = true
+		if len(b.Instrs) > 0 {
+			if ret, ok := b.Instrs[len(b.Instrs)-1].(*ssa.Return); ok {
+				if !before(parseCall, ret) {
+					// a return in the lex call's own block before the call does not count
+					if !(b == lexCall.Block() && before(ret, lexCall)) {
+						bad = "the return at " + w.Pos(ret.Pos()) + " can be reached after the lexer goroutine was started and before the token stream is consumed: the goroutine stays blocked on its channel send"
+					}
+				}
+			}
+		}
+		stack = append(stack, b.Succs...)
+	}
+	if bad == "" {
+		r.OK("leakwindow", key, w.Pos(lexCall.Pos()), "only the return after p.parse() follows the start of the lexer")
+	} else {
+		r.Fail("leakwindow", key, w.Pos(lexCall.Pos()), bad, nil)
+	}
+	r.Floor("leakwindow", 1)
 }
